@@ -88,13 +88,13 @@ theorem parse_resync_general {σ : Type} (E : Env σ) (st : PState σ) (errs : L
 theorem blank_line_closes (X : List Token) (nl y0 : Token) (Y' : List Token)
     (hX : ∀ t ∈ X, t.ty ≠ .eof) (h1 : nl.ty = .newline) (hy : y0.ty ≠ .indent) (hy' : y0.ty ≠ .newline)
     (hE : ∃ t ∈ y0 :: Y', t.ty = .eof) (st : PState (List Token)) (hs : strm st = X ++ nl :: y0 :: Y') :
-    ∃ items new dy, ErrZone X nl new ∧
+    ∃ items new dy, ErrZone X nl new ∧ ((∀ t ∈ X, t.ty ≠ .directive) → dy = st.defaultYear) ∧
       (parseJournal (listEnv num cls) st).1 = pushAll items (parseFrom num cls y0 Y' dy).1 ∧
       (parseJournal (listEnv num cls) st).2.errors = st.errors ++ new ++ (parseFrom num cls y0 Y' dy).2 := by
-  obtain ⟨items, new, dy, hp, hrun⟩ := sync num cls y0 Y' nl h1 hy hy' hE X.length X st (Nat.le_refl _) hX hs
+  obtain ⟨items, new, dy, hp, hdy, hrun⟩ := sync num cls y0 Y' nl h1 hy hy' hE X.length X st (Nat.le_refl _) hX hs
   have h := hrun _ _ (measure_le_fuelOf _ st) (measure_le_fuelOf _ (headState y0 Y' (st.errors ++ new) dy))
   have hr := parse_resync num cls y0 Y' (st.errors ++ new) dy
-  refine ⟨items, new, dy, hp, ?_, ?_⟩
+  refine ⟨items, new, dy, hp, hdy, ?_, ?_⟩
   · have : (parseJournal (listEnv num cls) st).1 =
         pushAll items (parseJournal (listEnv num cls) (headState y0 Y' (st.errors ++ new) dy)).1 := by
       unfold parseJournal; rw [h]
@@ -118,7 +118,7 @@ theorem blank_line_closes' (X : List Token) (nl1 nl2 y0 : Token) (Y' : List Toke
     intro t ht; simp at ht; rcases ht with h | h
     · exact hX t h
     · rw [h, h1]; simp
-  obtain ⟨items, new, dy, hp, hj, he⟩ :=
+  obtain ⟨items, new, dy, hp, _, hj, he⟩ :=
     blank_line_closes num cls (X ++ [nl1]) nl2 y0 Y' hX' h2 hy hy' hE st (by simpa using hs)
   refine ⟨items, new, dy, ?_, hj, he⟩
   intro x hx
@@ -146,6 +146,8 @@ theorem C07_contained_tokens (A Ed' B' : List Token) (nlA nlE e0 b0 : Token)
     (hB : ∃ t ∈ b0 :: B', t.ty = .eof) :
     ∃ itemsA itemsE errsA errsE dyA dyE,
       ErrZone A nlA errsA ∧ ErrZone (e0 :: Ed') nlE errsE ∧
+      ((∀ t ∈ A, t.ty ≠ .directive) → dyA = 0) ∧
+      ((∀ t ∈ e0 :: Ed', t.ty ≠ .directive) → dyE = dyA) ∧
       (parseFrom num cls e0 (Ed' ++ nlE :: b0 :: B') dyA).1 = pushAll itemsE (parseFrom num cls b0 B' dyE).1 ∧
       (parseTokens num cls (A ++ nlA :: e0 :: Ed' ++ nlE :: b0 :: B')).1 =
         pushAll (itemsA ++ itemsE) (parseFrom num cls b0 B' dyE).1 ∧
@@ -153,25 +155,26 @@ theorem C07_contained_tokens (A Ed' B' : List Token) (nlA nlE e0 b0 : Token)
         errsA ++ errsE ++ (parseFrom num cls b0 B' dyE).2 := by
   -- the whole stream as a state
   have hT : ∀ T : List Token, T ≠ [] →
-      ∃ st0 : PState (List Token), strm st0 = T ∧ st0.errors = [] ∧
+      ∃ st0 : PState (List Token), strm st0 = T ∧ st0.errors = [] ∧ st0.defaultYear = 0 ∧
         parseTokens num cls T = ((parseJournal (listEnv num cls) st0).1, (parseJournal (listEnv num cls) st0).2.errors) := by
     intro T hT
     cases T with
     | nil => exact absurd rfl hT
-    | cons t0 T' => exact ⟨⟨T', t0, [], 0⟩, rfl, rfl, rfl⟩
-  obtain ⟨st0, hs0, he0', hp0⟩ := hT (A ++ nlA :: e0 :: Ed' ++ nlE :: b0 :: B') (by simp)
+    | cons t0 T' => exact ⟨⟨T', t0, [], 0⟩, rfl, rfl, rfl, rfl⟩
+  obtain ⟨st0, hs0, he0', hdy0, hp0⟩ := hT (A ++ nlA :: e0 :: Ed' ++ nlE :: b0 :: B') (by simp)
   -- first boundary: in front of e0
   have hE1 : ∃ t ∈ e0 :: (Ed' ++ nlE :: b0 :: B'), t.ty = .eof := by
     obtain ⟨t, ht, he⟩ := hB
     exact ⟨t, by simp at ht ⊢; rcases ht with h | h <;> simp [h], he⟩
-  obtain ⟨itemsA, errsA, dyA, hzA, hjA, heA⟩ :=
+  obtain ⟨itemsA, errsA, dyA, hzA, hdyA, hjA, heA⟩ :=
     blank_line_closes num cls A nlA e0 (Ed' ++ nlE :: b0 :: B') hA hnA he0.1 he0.2 hE1 st0
       (by rw [hs0]; simp)
   -- second boundary: in front of b0, for the parse that starts at e0
-  obtain ⟨itemsE, errsE, dyE, hzE, hjE, heE⟩ :=
+  obtain ⟨itemsE, errsE, dyE, hzE, hdyE, hjE, heE⟩ :=
     blank_line_closes num cls (e0 :: Ed') nlE b0 B' hEd hnE hb0.1 hb0.2 hB
       (headState e0 (Ed' ++ nlE :: b0 :: B') [] dyA) (by simp [strm, headState])
-  refine ⟨itemsA, itemsE, errsA, errsE, dyA, dyE, hzA, hzE, ?_, ?_, ?_⟩
+  refine ⟨itemsA, itemsE, errsA, errsE, dyA, dyE, hzA, hzE,
+    (fun h => by rw [hdyA h, hdy0]), (fun h => by simpa [headState] using hdyE h), ?_, ?_, ?_⟩
   · exact hjE
   · rw [hp0]
     simp only
@@ -186,10 +189,54 @@ theorem C07_contained_tokens (A Ed' B' : List Token) (nlA nlE e0 b0 : Token)
     rw [this]
     simp
 
-/-- Two damages of the same entry leave everything parsed from the rest of the file identical —
-    journal content, every range, and exactly its own errors — whenever the two runs reach the
-    rest of the file with the same default year.  (The prefix `A` may differ as well.) -/
-theorem C07_suffix_independent_of_damage (b0 : Token) (B' : List Token) (dy1 dy2 : Int) (h : dy1 = dy2) :
-    parseFrom num cls b0 B' dy1 = parseFrom num cls b0 B' dy2 := by rw [h]
+/-- **Two damages compared.**  `Ed₁` and `Ed₂` are two versions of the same entry (e.g. intact
+    and damaged), in the same surroundings `A … B`; neither they nor `A` contain a Directive
+    token (so no `Y` directive can change the default year — the stated hypothesis of C07).
+    Then everything parsed from `B` — transactions, directives, comments, includes with all
+    their content and ranges, and exactly `B`'s own errors — is the same in both files:
+    both journals are some items pushed in front of the SAME journal `JB`, both error lists end
+    with the SAME `EB`, and all other errors of file i sit in `A` or in `Edᵢ` (or on the Newline
+    ending them). -/
+theorem C07_suffix_independent_of_damage (A Ed1' Ed2' B' : List Token) (nlA nlE1 nlE2 e1 e2 b0 : Token)
+    (hA : ∀ t ∈ A, t.ty ≠ .eof ∧ t.ty ≠ .directive)
+    (hEd1 : ∀ t ∈ e1 :: Ed1', t.ty ≠ .eof ∧ t.ty ≠ .directive)
+    (hEd2 : ∀ t ∈ e2 :: Ed2', t.ty ≠ .eof ∧ t.ty ≠ .directive)
+    (hnA : nlA.ty = .newline) (hn1 : nlE1.ty = .newline) (hn2 : nlE2.ty = .newline)
+    (he1 : e1.ty ≠ .indent ∧ e1.ty ≠ .newline) (he2 : e2.ty ≠ .indent ∧ e2.ty ≠ .newline)
+    (hb0 : b0.ty ≠ .indent ∧ b0.ty ≠ .newline) (hB : ∃ t ∈ b0 :: B', t.ty = .eof) :
+    ∃ JB EB items1 items2 errs1 errs2,
+      (JB, EB) = parseFrom num cls b0 B' 0 ∧
+      (parseTokens num cls (A ++ nlA :: e1 :: Ed1' ++ nlE1 :: b0 :: B')).1 = pushAll items1 JB ∧
+      (parseTokens num cls (A ++ nlA :: e2 :: Ed2' ++ nlE2 :: b0 :: B')).1 = pushAll items2 JB ∧
+      (parseTokens num cls (A ++ nlA :: e1 :: Ed1' ++ nlE1 :: b0 :: B')).2 = errs1 ++ EB ∧
+      (parseTokens num cls (A ++ nlA :: e2 :: Ed2' ++ nlE2 :: b0 :: B')).2 = errs2 ++ EB ∧
+      (∀ x ∈ errs1, ∃ t ∈ A ++ nlA :: e1 :: Ed1' ++ [nlE1], x.pos = t.pos) ∧
+      (∀ x ∈ errs2, ∃ t ∈ A ++ nlA :: e2 :: Ed2' ++ [nlE2], x.pos = t.pos) := by
+  obtain ⟨iA1, iE1, eA1, eE1, dyA1, dyE1, zA1, zE1, hd1, hd1', _, hj1, hr1⟩ :=
+    C07_contained_tokens num cls A Ed1' B' nlA nlE1 e1 b0 (fun t ht => (hA t ht).1)
+      (fun t ht => (hEd1 t ht).1) hnA hn1 he1 hb0 hB
+  obtain ⟨iA2, iE2, eA2, eE2, dyA2, dyE2, zA2, zE2, hd2, hd2', _, hj2, hr2⟩ :=
+    C07_contained_tokens num cls A Ed2' B' nlA nlE2 e2 b0 (fun t ht => (hA t ht).1)
+      (fun t ht => (hEd2 t ht).1) hnA hn2 he2 hb0 hB
+  have y1 : dyE1 = 0 := by rw [hd1' (fun t ht => (hEd1 t ht).2), hd1 (fun t ht => (hA t ht).2)]
+  have y2 : dyE2 = 0 := by rw [hd2' (fun t ht => (hEd2 t ht).2), hd2 (fun t ht => (hA t ht).2)]
+  rw [y1] at hj1 hr1
+  rw [y2] at hj2 hr2
+  refine ⟨(parseFrom num cls b0 B' 0).1, (parseFrom num cls b0 B' 0).2, iA1 ++ iE1, iA2 ++ iE2,
+    eA1 ++ eE1, eA2 ++ eE2, rfl, hj1, hj2, hr1, hr2, ?_, ?_⟩
+  · intro x hx
+    simp only [List.mem_append] at hx
+    rcases hx with hx | hx
+    · obtain ⟨t, ht, hp⟩ := zA1.weaken x hx
+      exact ⟨t, by simp at ht ⊢; rcases ht with h | h <;> simp [h], hp⟩
+    · obtain ⟨t, ht, hp⟩ := zE1.weaken x hx
+      exact ⟨t, by simp at ht ⊢; rcases ht with h | h | h <;> simp [h], hp⟩
+  · intro x hx
+    simp only [List.mem_append] at hx
+    rcases hx with hx | hx
+    · obtain ⟨t, ht, hp⟩ := zA2.weaken x hx
+      exact ⟨t, by simp at ht ⊢; rcases ht with h | h <;> simp [h], hp⟩
+    · obtain ⟨t, ht, hp⟩ := zE2.weaken x hx
+      exact ⟨t, by simp at ht ⊢; rcases ht with h | h | h <;> simp [h], hp⟩
 
 end HL.Props.C07
